@@ -129,6 +129,15 @@ def dictObs (st : St) (s : Seg) (c : Cmd) : String :=
   let bits := if probe.isEmpty then "-" else String.join (probe.map (fun p => b01 ((lookup p terms).isSome)))
   s!"ents={es} contains={bits} card={terms.length}"
 
+/-- two iterators of one dictionary alive together: each answers as if alone -/
+def dictPairObs (st : St) (s : Seg) (c : Cmd) : String :=
+  let terms := s.dictTerms (strBytes (c.arg 2))
+  let bound := fun (k : String) => let v := c.getD k "*"; if v == "*" then none else some (unhx v)
+  let one := fun (lo hi : Option Bytes) =>
+    let ents := dictIterate st.clears1Hit (fun _ => true) lo hi {} terms
+    if ents.isEmpty then "-" else ",".intercalate (ents.map (fun p => s!"{hx p.1}:{p.2}"))
+  s!"a={one (bound "lo1") (bound "hi1")} b={one (bound "lo2") (bound "hi2")}"
+
 def storedObs (s : Seg) (c : Cmd) : String :=
   let d := (c.arg 2).toNat?.getD 0
   let stop := let v := c.getD "stop" "*"; if v == "*" then none else v.toNat?
@@ -211,6 +220,10 @@ def queryObs (st : St) (c : Cmd) : St × Verdict :=
     | "dvfields" => (st, .exact (strList (sortStrs (s.dvFieldNames.map nameStr))))
     | "post" => (st, .exact (postObs st s c))
     | "dict" => (st, .exact (dictObs st s c))
+    | "dictpair" => (st, .exact (dictPairObs st s c))
+    | "byteswritten" =>
+      -- a statistic of the build: nothing was written for an empty batch, whatever was built before
+      if s.numDocs = 0 ∧ (st.segBatch.get? (c.arg 1)).isSome then (st, .exact "0") else (st, .pred (fun _ => true) "any")
     | "stored" => (st, .exact (storedObs s c))
     | "docid" => (st, .exact (match s.docID ((c.arg 2).toNat?.getD 0) with | none => "nil" | some b => hx b))
     | "docnums" => (st, .exact (natList "," (s.docNumbers (unhxList (c.getD "ids" "-")))))
@@ -286,8 +299,9 @@ def vecObs (st : St) (c : Cmd) : St × Verdict :=
     let f := strBytes (c.arg 2)
     let has := (st.vecIx? seg f).isSome
     let cache := st.vcaches.getD seg {}
+    -- inside `par k` every goroutine opens its own handle under this name
     let st := { st with handles := st.handles.insert (c.arg 0) (seg, f, parseBitmap (c.getD "ex" "nil"), c.getD "filt" "0" == "1", has),
-                        vcaches := if has then st.vcaches.insert seg (cache.open f) else st.vcaches }
+                        vcaches := if has then st.vcaches.insert seg (iterN (fun x => x.open f) st.parMul cache) else st.vcaches }
     (st, .exact "ok")
   | "vclose" =>
     match st.handles.get? (c.arg 0) with
@@ -295,7 +309,7 @@ def vecObs (st : St) (c : Cmd) : St × Verdict :=
     | some (seg, f, _, _, has) =>
       let cache := st.vcaches.getD seg {}
       ({ st with handles := st.handles.erase (c.arg 0),
-                 vcaches := if has then st.vcaches.insert seg (cache.closeHandle f) else st.vcaches }, .exact "ok")
+                 vcaches := if has then st.vcaches.insert seg (iterN (fun x => x.closeHandle f) st.parMul cache) else st.vcaches }, .exact "ok")
   | "vsearch" =>
     match st.handles.get? (c.arg 0) with
     | none => (st, .exact "scripterror:nohandle")
